@@ -570,17 +570,18 @@ func genListCase(t *Tape, maxOps int) *ListCase {
 func registerC15() {
 	mk := func(name string, count map[string]int, maxOps int) *Workload {
 		return &Workload{
-			Name:  name,
-			Count: func(tier string) int { return count[tier] },
-			Gen:   func(i int, t *Tape, tier string) any { return genListCase(t, maxOps) },
-			Run:   func(c any, keep bool) Outcome { return runListCase(c.(*ListCase), keep) },
-			New:   func() any { return &ListCase{} },
+			Name:     name,
+			Count:    func(tier string) int { return count[tier] },
+			Gen:      func(i int, t *Tape, tier string) any { return genListCase(t, maxOps) },
+			Run:      func(c any, keep bool) Outcome { return runListCase(c.(*ListCase), keep) },
+			New:      func() any { return &ListCase{} },
+			Simplify: simplifyList,
 		}
 	}
 	register(&Property{
 		ID:    "C15",
 		Level: "exploration",
-		Rule: "seeded histories of 3-60 operations (push, pop, popfirst, length, in-range / negative / past-the-end index read and write, contains, sort, and method calls nested in method arguments incl. the same method on another array) interleaved on three arrays held by a variable, an object member and a document field; after every operation the result and all three arrays are printed and compared with an ideal-list model; contains is compared with the SUT's own == applied to each element in order; an index before the start must end the run with a runtime error. Distinct = distinct (set of operation kinds, length bucket); non-trivial = at least two operations.",
+		Rule:  "seeded histories of 3-60 operations (push, pop, popfirst, length, in-range / negative / past-the-end index read and write, contains, sort, and method calls nested in method arguments incl. the same method on another array) interleaved on three arrays held by a variable, an object member and a document field; after every operation the result and all three arrays are printed and compared with an ideal-list model; contains is compared with the SUT's own == applied to each element in order; an index before the start must end the run with a runtime error. Distinct = distinct (set of operation kinds, length bucket); non-trivial = at least two operations.",
 		Assumptions: []string{
 			"no fault or interleaving dimension exists for this property; what the harness contributes is seeded history search, per-step model conformance, minimisation and replay",
 			"each array is only ever addressed through the one name that holds it (aliasing is C09's subject, known finding K1)",
